@@ -4,6 +4,7 @@
    `[to, to.end())` of a valid document is a closed slice of valid nodes (`gap_to_end_valid`).  Together:
    `C01.PayloadValid` of such a step. -/
 import Proofs.FitPayload
+import Proofs.FlatInsertCore
 set_option linter.unusedVariables false
 namespace PM
 
@@ -209,7 +210,8 @@ theorem insertInto_zero_openValid (S : Schema) (gap : List Node) (hg : S.checkKi
 theorem insertAt_zero_openValid (S : Schema) (sl ins : Slice) (gap : List Node) (hg : S.checkKids gap = true)
     (hwf : sl.openStart ≤ spineL sl.content) (hv : openValid S sl.openStart sl.openEnd sl.content = true)
     (h : sl.insertAt S 0 gap = .ok (some ins)) : openValid S ins.openStart ins.openEnd ins.content = true := by
-  unfold Slice.insertAt at h
+  rw [insertAt_of_le (insertAt_ok h).1] at h
+  unfold Slice.insertAtIn at h
   simp only [Nat.zero_add] at h
   split at h
   · rename_i c hc
